@@ -1112,6 +1112,16 @@ func (it *Interp) compare(op token.Token, l, r Value, pos token.Pos) *BoolVal {
 		}
 		return &BoolVal{Known: true, V: !both}
 	}
+	// two scalar objects compared with == / != : identity of the objects, as for the pointers behind the interfaces
+	if ll, ok := l.(*Loc); ok && (op == token.EQL || op == token.NEQ) {
+		if rl, ok := r.(*Loc); ok {
+			same := ll == rl
+			if op == token.NEQ {
+				same = !same
+			}
+			return &BoolVal{Known: true, V: same}
+		}
+	}
 	var a, b *sym.Term
 	switch t := l.(type) {
 	case *sym.Term:
